@@ -214,7 +214,7 @@ META = {
         "object answers 1..4 questions (query = smoothing, forward_inference = filtering, backward_inference) on variables in slices 0..3 (4 thorough) with 0..3 evidence "
         "items anywhere incl. interface nodes, then get_constant_bn.  Templates outside the domain of the interface algorithm (a variable missing from the 1.5-slice "
         "network, disconnected slice graphs) are counted and skipped.  Oracle: brute-force joint of the network unrolled to the needed number of slices (<= 70000 cells); "
-        "the constant network's CPDs equal the template's.  Strict everywhere except the one open finding (answers below another queried slice s >= 1 in smoothing).  Non-trivial = at least one checked question; distinct = distinct trace digest; order signature = cliques of "
+        "the constant network's CPDs equal the template's.  Strict everywhere except the two open smoothing findings (answers below another queried slice s >= 1; evidence on a forward-interface variable).  Non-trivial = at least one checked question; distinct = distinct trace digest; order signature = cliques of "
         "the 1.5-slice junction tree.",
         "faults: relabel / insertion order (hash-order-driven junction-tree layout and _get_clique(...)[0]), one engine reused for the whole history",
         ["interface_nodes_1", "interface_nodes_2"],
